@@ -201,8 +201,19 @@ def run(ctx, rep):
     if bt is None or bl is None:
         rep.add("R2", fi.qname, "clean-mode blocks", "clean mode does not treat both text and tail", fi.loc(n_if))
     else:
-        a = ast.dump(Ren("text", "_content").visit(copy.deepcopy(ast.Module(body=bt, type_ignores=[]))))
-        b = ast.dump(Ren("tail", "_tail").visit(copy.deepcopy(ast.Module(body=bl, type_ignores=[]))))
+        def alpha(m):
+            # locals bound inside the block are compared up to renaming (first-occurrence order)
+            bound = [n.id for n in ast.walk(m) if isinstance(n, ast.Name) and isinstance(n.ctx, ast.Store) and n.id not in ("ITEM", "FIELD")]
+            order = {}
+            for n in ast.walk(m):
+                if isinstance(n, ast.Name) and n.id in bound and n.id not in order:
+                    order[n.id] = f"L{len(order)}"
+            for n in ast.walk(m):
+                if isinstance(n, ast.Name) and n.id in order:
+                    n.id = order[n.id]
+            return m
+        a = ast.dump(alpha(Ren("text", "_content").visit(copy.deepcopy(ast.Module(body=bt, type_ignores=[])))))
+        b = ast.dump(alpha(Ren("tail", "_tail").visit(copy.deepcopy(ast.Module(body=bl, type_ignores=[])))))
         ok = a == b
         rep.oblige(("R2", "siblings"), ok)
         if not ok:
